@@ -8,7 +8,7 @@ INFO = dict(
             'fiber_scheduler_next', 'fiber_scheduler_load_balance', 'wsd_work_stealing_deque_push_bottom', 'wsd_work_stealing_deque_pop_bottom',
             'fiber_create', 'fiber_create_no_sched', 'fiber_manager_create', 'fiber_scheduler_init'],
  stubs=['fiber_context_swap(from,to): "execution continues as the target fiber" plus ghost bookkeeping (exact for fibers that only yield, on one kernel thread)',
-        'fiber_context_init/destroy: no stack is allocated', 'the two run queues get 8-slot arrays instead of the hard-coded 256-slot ones'],
+        'fiber_context_init/destroy: no stack is allocated', 'the two run queues get 8-slot (one configuration: 2-slot, growing) arrays instead of the hard-coded 256-slot ones'],
  assumptions=['one kernel thread (no stealing that could mask starvation)'],
  bounds='n = 3, 4 or 5 ready fibers (2-4 created fibers + the thread fiber) that all keep yielding, 3n+2 consecutive yields; the run is sequential, '
         'the solver evaluates the real scheduler code on it',
@@ -25,4 +25,10 @@ def plan(tier, ctx):
         steps = 3 * (n + 1) + 2
         j += fvm.config('C10', 'fair_n%d' % (n + 1), 'fair.c', 1, steps + 2, 'sc', srcs=src, defines=['NFIB=%d' % n, 'STEPS=%d' % steps],
                         spec=dict(spec), bounds='%d ready fibers, %d yields' % (n + 1, steps), timeout=900)
+    # small initial arrays: the run queues reach their capacity and grow while the fibers yield (array-capacity boundary)
+    n = 4
+    steps = 3 * (n + 1) + 2
+    gs = dict(spec); gs['pools'] = [['wsd_.*#malloc', 1, 3, 96]]
+    j += fvm.config('C10', 'fair_n5_grow', 'fair.c', 1, steps + 2, 'sc', srcs=src, defines=['NFIB=%d' % n, 'STEPS=%d' % steps, 'QLOG=1'],
+                    spec=gs, bounds='5 ready fibers, run-queue arrays start with 2 slots and grow during the run', timeout=900)
     return j
